@@ -306,7 +306,7 @@ class DescendingTree:
         return numpy.sort(hits)[::-1]
 
 
-def body_points(ctx, conv, nreq, policy, api, dimname, boundary=False, bounds_coords=False, relabel=False, int_coords=False, point_taken=False):
+def body_points(ctx, conv, nreq, policy, api, dimname, boundary=False, bounds_coords=False, relabel=False, int_coords=False, point_taken=False, after_other=False):
     ds, cv, info = make(ctx, conv, bounds_coords, int_coords, point_taken=point_taken)
     polygons = cv.polygons
     N = len(polygons)
@@ -343,6 +343,19 @@ def body_points(ctx, conv, nreq, policy, api, dimname, boundary=False, bounds_co
     if not st.is_bound():
         cv.bind()
     points = [shapely.Point(x, y) for x, y in coords]
+    if after_other:
+        # the same stations were looked up in another model (other cells over the same region) earlier in this process
+        import gc
+        other = builders.cf1d(5, 7, lat=numpy.linspace(-1.0, 14.0, 5), lon=numpy.linspace(-2.0, 108.0, 7),
+                              data_vars={'temp': (('y', 'x'), numpy.arange(35.0).reshape(5, 7))})
+        for p in points:
+            other.ems.get_index_for_point(p)
+        try:
+            other.ems.select_points(points, missing_points='drop')
+        except Exception:
+            pass
+        del other
+        gc.collect()
     hits = [k for k, o in enumerate(outcomes) if o >= 0]
     misses = [k for k, o in enumerate(outcomes) if o < 0]
     hit_cells = [tuple(int(v) for v in numpy.unravel_index(outcomes[k], shape)) for k in hits]
@@ -470,6 +483,8 @@ def cases(tier):
                            dict(conv=conv, nreq=2, policy=policy, api='extract_dataframe', dimname=None, relabel=True), max_paths=50000, split=16)
                 yield Case(f'points:{conv}:extract_dataframe:{policy}:2:relabelled-table:range', body_points,
                            dict(conv=conv, nreq=2, policy=policy, api='extract_dataframe', dimname=None, relabel='range'), max_paths=50000, split=16)
+            yield Case(f'points:{conv}:select_points:drop:2:after-another-model', body_points,
+                       dict(conv=conv, nreq=2, policy='drop', api='select_points', dimname=None, after_other=True), max_paths=50000, split=16)
             yield Case(f'points:{conv}:select_points:drop:2:point-dimension-taken', body_points,
                        dict(conv=conv, nreq=2, policy='drop', api='select_points', dimname=None, point_taken=True), max_paths=50000, split=16)
             if conv == 'ugrid':
